@@ -249,6 +249,10 @@ def rebin(img, factor):
     if np.iscomplexobj(img):
         raise ValueError('rebin is not defined for complex data')
 
+    if img.dtype == np.float16:
+        # block sums of a half precision frame overflow at 65504
+        img = img.astype(np.float32)
+
     if img.ndim == 3:
         rebinned_shape = (img.shape[0], img.shape[1]//factor, img.shape[2]//factor)
         # accumulate in the dtype of the block sums (small integer types are
